@@ -27,6 +27,12 @@ theorem wr_mid {α : Type} (xs : List α) (y b : α) (ys : List α) :
 theorem wr_cons_zero {α : Type} (x b : α) (xs : List α) : Sha256.wr (x :: xs) 0 b = b :: xs := by
   simp [Sha256.wr]
 
+theorem inb_eq {α : Type} (a : List α) (i : Nat) (h : i < a.length) : Sha256.inb a i = true := by
+  simp [Sha256.inb, h]
+
+theorem data32ok_eq (buf : List UInt8) (h : buf.length = 64) : data32ok buf = true := by
+  simp [data32ok, Sha256.inb, h, List.range, List.range.loop]
+
 theorem beWord_eq (b0 b1 b2 b3 : UInt8) :
     (b0.toUInt32 <<< 24) + (b1.toUInt32 <<< 16) + (b2.toUInt32 <<< 8) + b3.toUInt32 = Spec.beWord b0 b1 b2 b3 := by
   apply UInt32.toNat_inj.mp
